@@ -63,9 +63,23 @@ var servingRe = regexp.MustCompile(`panic serving ([^ ]+): ([^\n]*)`)
 
 type countConn struct {
 	net.Conn
-	mu    sync.Mutex
-	total int64
-	reads []int
+	mu     sync.Mutex
+	total  int64
+	reads  []int
+	closed bool
+}
+
+func (c *countConn) Close() error {
+	c.mu.Lock()
+	c.closed = true
+	c.mu.Unlock()
+	return c.Conn.Close()
+}
+
+func (c *countConn) isClosed() bool {
+	c.mu.Lock()
+	defer c.mu.Unlock()
+	return c.closed
 }
 
 func (c *countConn) Read(b []byte) (int, error) {
@@ -103,12 +117,18 @@ func (l *countListener) Accept() (net.Conn, error) {
 }
 
 // waitConsumed waits (logically: polling a counter) until the server side of
-// the connection from local has read at least n bytes.
+// the connection from local has read at least n bytes. It returns early when
+// the server has closed the connection (it will never read more); false only
+// when the watchdog expired.
 func (l *countListener) waitConsumed(local string, n int64) bool {
-	deadline := time.Now().Add(60 * time.Second)
+	deadline := time.Now().Add(120 * time.Second)
 	for i := 0; ; i++ {
 		if v, ok := l.conns.Load(local); ok {
-			if t, _ := v.(*countConn).consumed(); t >= n {
+			cc := v.(*countConn)
+			if t, _ := cc.consumed(); t >= n {
+				return true
+			}
+			if cc.isClosed() {
 				return true
 			}
 		}
@@ -214,7 +234,6 @@ func startSegServer(r *rec, dir string) (*segEnv, error) {
 		ConnState: func(c net.Conn, cs http.ConnState) {
 			if cs == http.StateClosed || cs == http.StateHijacked {
 				env.vl.Forget(c.RemoteAddr().String())
-				env.ln.conns.Delete(c.RemoteAddr().String())
 			}
 		},
 		ReadHeaderTimeout: 2 * time.Minute,
@@ -254,6 +273,7 @@ func (e *segEnv) runSeg(sc segCase) {
 	local := raw.LocalAddr().String()
 	e.byAddr.Store(local, sc)
 	defer e.byAddr.Delete(local)
+	defer e.ln.conns.Delete(local)
 	raw.SetDeadline(time.Now().Add(3 * time.Minute))
 	seg := &segConn{Conn: raw, cuts: sc.Cuts, ln: e.ln}
 	tc := tls.Client(seg, cfg)
@@ -387,6 +407,10 @@ func (e *segEnv) runRaw(rc rawCase) {
 		tc.SetLinger(0)
 	}
 	raw.Close()
+	e.ln.conns.Delete(local)
+	if stalled {
+		r.inconclusive(fmt.Sprintf("rawtls: server did not consume a segment within the watchdog (class=%s cuts=%v)", rc.Class, rc.Cuts))
+	}
 	r.eval(1)
 	r.count("rawtls_connections", 1)
 	if len(rc.Record) > 47 {
@@ -441,7 +465,7 @@ func subSeg(args []string) int {
 	thorough := args[2] == "thorough"
 	seed, _ := strconv.ParseUint(args[3], 10, 64)
 	dir := args[4]
-	r := newRec("seg", dir, fmt.Sprintf("seg-%d", shard), 400000)
+	r := newRec("seg", dir, fmt.Sprintf("seg-%d", shard), 100000)
 	env, err := startSegServer(r, dir)
 	if err != nil {
 		fmt.Fprintln(os.Stderr, "c19 seg: ", err)
@@ -462,13 +486,10 @@ func subSeg(args []string) int {
 		cases = append(cases, segCase{hc.Name, nil, ua})
 		// every 2-segmentation (quick: sub-sampled above 64 for long records)
 		for k := 1; k < rl; k++ {
-			if !thorough && rl > 600 && k > 64 && k%7 != 0 && !(k >= 505 && k <= 525) && k < rl-8 {
-				continue
-			}
 			cases = append(cases, segCase{hc.Name, []int{k}, ua})
 		}
 		// sampled 3- and 4-segmentations
-		m := 70
+		m := 300
 		if thorough {
 			m = 6000
 		}
